@@ -304,3 +304,18 @@ Example ex_iff_pages :
   snd (enumerate (build ex_iff 2) [1; -2] 1 [] (fresh_scratch ex_iff)) = None /\
   snd (enumerate (build ex_iff 2) [3] 1 [] (fresh_scratch ex_iff)) = None.
 Proof. repeat (split; [vm_compute; reflexivity|]). vm_compute; reflexivity. Qed.
+
+(* the hypothesis exec_spec evaluated (fresh scratch) on every partial assignment, and with every
+   literal repeated 8 times (more than 20 literals: the default strategy instead of the marker
+   strategy), for the two circuits above and a deeper one with a core literal and a true node *)
+Definition ex_core : circuit :=
+  [Lit 1; Lit 2; Lit (-2); Lit 3; Lit (-3); And [1;3]%nat; And [2;4]%nat; Or [5;6]%nat; TrueN;
+   And [0;8;7]%nat].
+Example exec_spec_evaluated :
+  check_wf ex_core 3 = true /\ or_no_true_child ex_core = true /\
+  forallb (exec_okb ex_iff 2) (partials [2;1]) = true /\
+  forallb (exec_okb ex_and 3) (partials [3;1;2]) = true /\
+  forallb (exec_okb ex_core 3) (partials [3;1;2]) = true /\
+  forallb (exec_okb ex_core 3)
+          (map (fun a => a ++ a ++ a ++ a ++ a ++ a ++ a ++ a) (partials [3;1;2])) = true.
+Proof. repeat (split; [vm_compute; reflexivity|]). vm_compute; reflexivity. Qed.
